@@ -63,6 +63,7 @@ static int mtx_on, lockn, unlockn, lockfail[MAXFAIL], nlockfail, unlockfail[MAXF
 static int last_refused_byte = -1;
 static int in_service;
 static long n_handler_calls, n_writes, n_trig_calls, n_reads, n_u_hold;
+static int early_isolation_reported;
 /* running hashes (C12 differential inside the fuzz target) and the streaming C01 monitor */
 static uint64_t out_hash, cb_hash;
 static long mon_lines_terminated, mon_results_done;
@@ -687,6 +688,7 @@ void w_reset(void)
         free(buf); free(ubuf); free(buf_shadow); free(ubuf_shadow); free(buf_pristine); free(ubuf_pristine);
         buf = ubuf = buf_shadow = ubuf_shadow = buf_pristine = ubuf_pristine = NULL;
         n_handler_calls = n_writes = n_trig_calls = n_reads = n_u_hold = 0;
+        early_isolation_reported = 0;
         out_hash = cb_hash = HASH_INIT;
         mon_lines_terminated = mon_results_done = 0;
         mon_line_nonblank = mon_chunk_len = 0;
@@ -876,6 +878,19 @@ static void monitors_after_step(void)
 {
         int i, k;
         size_t half = bufsz >> 1;
+        /* half isolation while it is certain that the respective state machine has nothing to do (C03): until the first
+         * trigger call the unsolicited region stays pristine, until the first input byte the command region does */
+        if (!early_isolation_reported && buf_pristine != NULL) {
+                if (n_trig_calls == 0 && (shared ? memcmp(buf + half, buf_pristine + half, bufsz - half) != 0
+                                                 : (ubufsz && memcmp(ubuf, ubuf_pristine, ubufsz) != 0))) {
+                        violation("unsolicited-region-touched-without-event");
+                        early_isolation_reported = 1;
+                }
+                if (n_reads == 0 && n_u_hold == 0 && memcmp(buf, buf_pristine, shared ? half : bufsz) != 0) {
+                        violation("command-region-touched-without-input");
+                        early_isolation_reported = 1;
+                }
+        }
         if (flags & WF_MONVARS) {
                 for (i = 0; i < ncmd; i++)
                         for (k = 0; k < wc[i].nvar; k++)
@@ -1083,12 +1098,12 @@ void w_run(long budget, long stall_n)
          * command region is never touched */
         {
                 size_t half = bufsz >> 1;
-                if (n_trig_calls == 0) {
+                if (n_trig_calls == 0 && !early_isolation_reported) {
                         if (shared ? memcmp(buf + half, buf_pristine + half, bufsz - half) != 0
                                    : (ubufsz && memcmp(ubuf, ubuf_pristine, ubufsz) != 0))
                                 violation("unsolicited-region-touched-without-event");
                 }
-                if (n_reads == 0 && n_u_hold == 0) {
+                if (n_reads == 0 && n_u_hold == 0 && !early_isolation_reported) {
                         if (memcmp(buf, buf_pristine, shared ? half : bufsz) != 0)
                                 violation("command-region-touched-without-input");
                 }
